@@ -46,6 +46,11 @@ ObsLoggerOK(s, l, o) ==
     \* what a probe record shows: own attributes, preceded by the ancestors' while the inherit flag is on
     /\ Has(o, "attrs") => o.attrs = Leaves(Chain(s, l), <<>>)
     /\ Has(o, "each") => o.each = EachOf(s, l)
+    \* DumpSubloggers prints the same subtree: the bag of indentation depths agrees with Each
+    /\ Has(o, "dump") => SameBag(o.dump, DumpDepths(s, l))
+    \* GetWriterBy(r) is the destination list of severity r; GetWriter() the one of the logger's own level
+    /\ Has(o, "getw") => \A x \in 1..Len(o.getw) : SameBag(Written(o.getw[x].evs), Dest(s, l, o.getw[x].r))
+    /\ Has(o, "getw0") => SameBag(Written(o.getw0), Dest(s, l, s.cfg[l].level))
     /\ Has(o, "sub") => \A x \in 1..Len(o.sub) :
             LET c == SubCands(s, l, o.sub[x].name)
             IN IF c = {} THEN o.sub[x].got = 0 ELSE o.sub[x].got \in c
